@@ -86,14 +86,17 @@ Definition fs_makedirs (p : bytes) (mode : Z) (w : fsw) : fsw * ores unit :=
 Definition fs_isdir (p : bytes) (w : fsw) : bool :=
   match fs_look (fs_key p) w with Some NDir => true | _ => false end.
 
-(* os.unlink(path): EISDIR on a directory (Linux), ENOTDIR / ENOENT when it does not resolve *)
+(* os.unlink(path): ENOTDIR when an ancestor is a regular file, EISDIR on a directory
+   (Linux), ENOENT when there is nothing *)
 Definition fs_unlink (p : bytes) (w : fsw) : fsw * ores unit :=
   let k := fs_key p in
-  match fs_look k w with
-  | Some (NFile _) => (mk_fsw (remove_key k (fs_nodes w)) (fs_fds w) (fs_next_fd w), OOk tt)
-  | Some NDir => (w, OErr errno_EISDIR)
-  | None => (w, OErr (missing_errno k w))
-  end.
+  if existsb (is_file_at w) (proper_prefixes k) then (w, OErr errno_ENOTDIR)
+  else
+    match fs_look k w with
+    | Some (NFile _) => (mk_fsw (remove_key k (fs_nodes w)) (fs_fds w) (fs_next_fd w), OOk tt)
+    | Some NDir => (w, OErr errno_EISDIR)
+    | None => (w, OErr errno_ENOENT)
+    end.
 
 Definition fs_open_rb (p : bytes) (w : fsw) : ores bytes :=
   let k := fs_key p in
@@ -112,9 +115,13 @@ Definition max_name_len (nodes : list (fskey * node)) : nat :=
    (the real mkstemp draws eight random characters and retries on collision) *)
 Definition fresh_tag (w : fsw) : bytes := repeatN 120%N (S (max_name_len (fs_nodes w))).
 
+Definition has_slash (b : bytes) : bool := existsb (N.eqb 47%N) b.
+
+(* a prefix or suffix containing '/' would address a sub-directory that does not exist *)
 Definition fs_mkstemp (suffix : bytes) (dir : option bytes) (prefix : bytes) (w : fsw) : fsw * ores (Z * bytes) :=
   let d := match dir with Some x => x | None => fs_tmpdir end in
   let dk := fs_key d in
+  if has_slash prefix || has_slash suffix then (w, OErr errno_ENOENT) else
   match fs_look dk w with
   | Some NDir =>
       let name := prefix ++ fresh_tag w ++ suffix in
